@@ -54,17 +54,19 @@ impl El for Tracked {
 /// Model element: not `Copy`, no `Drop`; compares by `val` exactly like `Tracked`.
 #[derive(Debug)]
 pub struct MEl {
-    id: u32,
-    val: u32,
+    pub(crate) id: u32,
+    pub(crate) val: u32,
 }
 impl PartialEq for MEl {
     fn eq(&self, o: &MEl) -> bool {
+        ledger::tick();
         self.val == o.val
     }
 }
 impl Eq for MEl {}
 impl Ord for MEl {
     fn cmp(&self, o: &MEl) -> std::cmp::Ordering {
+        ledger::tick();
         self.val.cmp(&o.val)
     }
 }
@@ -84,7 +86,7 @@ impl El for MEl {
 
 /// Reference iterator: ONLY `next`, `next_back`, exact `size_hint`; everything else is a std default.
 pub struct Model {
-    q: VecDeque<MEl>,
+    pub(crate) q: VecDeque<MEl>,
 }
 impl Iterator for Model {
     type Item = MEl;
@@ -123,7 +125,7 @@ pub enum Arg {
     Max,
 }
 
-fn resolve(a: Arg, rem: usize, other: usize) -> usize {
+pub(crate) fn resolve(a: Arg, rem: usize, other: usize) -> usize {
     match a {
         Arg::Zero => 0,
         Arg::One => 1,
@@ -265,16 +267,19 @@ where
         POp::NthBack => ret!(it.nth_back(a)),
         POp::Find => ret!(it.find(|_| {
             c += 1;
+                ledger::tick();
             c > a
         })),
         POp::RFind => ret!(it.rfind(|_| {
             c += 1;
+                ledger::tick();
             c > a
         })),
         POp::Position => {
             let r = it.position(|x| {
                 sink(x);
                 c += 1;
+                ledger::tick();
                 c > a
             });
             obs.push(r.map_or(-1, |p| p as i64));
@@ -283,6 +288,7 @@ where
             let r = it.rposition(|x| {
                 sink(x);
                 c += 1;
+                ledger::tick();
                 c > a
             });
             obs.push(r.map_or(-1, |p| p as i64));
@@ -291,6 +297,7 @@ where
             let r = it.any(|x| {
                 sink(x);
                 c += 1;
+                ledger::tick();
                 c > a
             });
             obs.push(r as i64);
@@ -299,6 +306,7 @@ where
             let r = it.all(|x| {
                 sink(x);
                 c += 1;
+                ledger::tick();
                 c <= a
             });
             obs.push(r as i64);
@@ -306,6 +314,7 @@ where
         POp::FindMap => {
             let r = it.find_map(|x| {
                 c += 1;
+                ledger::tick();
                 if c > a {
                     Some(x)
                 } else {
@@ -318,6 +327,7 @@ where
             let r: Result<(), ()> = it.try_for_each(|x| {
                 sink(x);
                 c += 1;
+                ledger::tick();
                 if c > a {
                     Err(())
                 } else {
@@ -387,6 +397,7 @@ where
             .by_ref()
             .take_while(|_| {
                 c += 1;
+                ledger::tick();
                 c <= a
             })
             .for_each(|x| sink(x)),
@@ -394,6 +405,7 @@ where
             .by_ref()
             .skip_while(|_| {
                 c += 1;
+                ledger::tick();
                 c <= a
             })
             .next()),
@@ -403,6 +415,7 @@ where
                 .by_ref()
                 .map_while(|x| {
                     c += 1;
+                ledger::tick();
                     if c <= a {
                         Some(x)
                     } else {
@@ -415,10 +428,22 @@ where
                 sink(x)
             }
         }
-        POp::FilterTakeEach => it.by_ref().filter(|x| x.val() % 2 == 0).take(a).for_each(|x| sink(x)),
-        POp::FilterNextBack => ret!(it.by_ref().filter(|x| x.val() % 2 == 0).next_back()),
-        POp::FilterCount => obs.push(it.by_ref().filter(|x| x.val() % 2 == 0).count() as i64),
-        POp::FilterMapTakeEach => it.by_ref().filter_map(|x| if x.val() % 2 == 1 { Some(x) } else { None }).take(a).for_each(|x| sink(x)),
+        POp::FilterTakeEach => it.by_ref().filter(|x| {
+            ledger::tick();
+            x.val() % 2 == 0
+        }).take(a).for_each(|x| sink(x)),
+        POp::FilterNextBack => ret!(it.by_ref().filter(|x| {
+            ledger::tick();
+            x.val() % 2 == 0
+        }).next_back()),
+        POp::FilterCount => obs.push(it.by_ref().filter(|x| {
+            ledger::tick();
+            x.val() % 2 == 0
+        }).count() as i64),
+        POp::FilterMapTakeEach => it.by_ref().filter_map(|x| {
+            ledger::tick();
+            if x.val() % 2 == 1 { Some(x) } else { None }
+        }).take(a).for_each(|x| sink(x)),
         POp::Peek0 => {
             let mut p = it.by_ref().peekable();
             obs.push(p.peek().map_or(-1, |x| x.id() as i64));
@@ -431,7 +456,10 @@ where
         }
         POp::PeekNextIf => {
             let mut p = it.by_ref().peekable();
-            ret!(p.next_if(|x| x.val() % 2 == 0))
+            ret!(p.next_if(|x| {
+                ledger::tick();
+                x.val() % 2 == 0
+            }))
         }
         POp::PeekNextBack => {
             let mut p = it.by_ref().peekable();
@@ -455,20 +483,33 @@ where
         }
         POp::FuseNth => ret!(it.by_ref().fuse().nth(a)),
         POp::FuseNthBack => ret!(it.by_ref().fuse().nth_back(a)),
-        POp::MapNth => ret!(it.by_ref().map(|x| x).nth(a)),
-        POp::MapNthBack => ret!(it.by_ref().map(|x| x).nth_back(a)),
+        POp::MapNth => ret!(it.by_ref().map(|x| {
+            ledger::tick();
+            x
+        }).nth(a)),
+        POp::MapNthBack => ret!(it.by_ref().map(|x| {
+            ledger::tick();
+            x
+        }).nth_back(a)),
         POp::InspectNth => ret!(it
             .by_ref()
             .inspect(|_| {
                 c += 1;
+                ledger::tick();
             })
             .nth(a)),
         POp::Last => ret!(it.by_ref().last()),
         POp::Count => obs.push(it.by_ref().count() as i64),
         POp::Max => ret!(it.by_ref().max()),
         POp::Min => ret!(it.by_ref().min()),
-        POp::MaxByKey => ret!(it.by_ref().max_by_key(|x| x.val())),
-        POp::MinByKey => ret!(it.by_ref().min_by_key(|x| x.val())),
+        POp::MaxByKey => ret!(it.by_ref().max_by_key(|x| {
+            ledger::tick();
+            x.val()
+        })),
+        POp::MinByKey => ret!(it.by_ref().min_by_key(|x| {
+            ledger::tick();
+            x.val()
+        })),
         POp::CollectVec => {
             let v: Vec<X> = it.by_ref().collect();
             obs.push(v.len() as i64);
@@ -495,7 +536,10 @@ where
             obs.push(s as i64);
         }
         POp::Partition => {
-            let (e, o): (Vec<X>, Vec<X>) = it.by_ref().partition(|x| x.val() % 2 == 0);
+            let (e, o): (Vec<X>, Vec<X>) = it.by_ref().partition(|x| {
+            ledger::tick();
+            x.val() % 2 == 0
+        });
             obs.push(e.len() as i64);
             obs.push(o.len() as i64);
             for x in e.into_iter().chain(o) {
@@ -669,10 +713,22 @@ where
             FOp::TakeRevEach => it.take(a).rev().for_each(|x| sink(x)),
             FOp::Max => ret!(it.max()),
             FOp::Min => ret!(it.min()),
-            FOp::MaxByKey => ret!(it.max_by_key(|x| x.val())),
-            FOp::MinByKey => ret!(it.min_by_key(|x| x.val())),
-            FOp::MaxBy => ret!(it.max_by(|p, q| p.val().cmp(&q.val()))),
-            FOp::MinBy => ret!(it.min_by(|p, q| p.val().cmp(&q.val()))),
+            FOp::MaxByKey => ret!(it.max_by_key(|x| {
+            ledger::tick();
+            x.val()
+        })),
+            FOp::MinByKey => ret!(it.min_by_key(|x| {
+            ledger::tick();
+            x.val()
+        })),
+            FOp::MaxBy => ret!(it.max_by(|p, q| {
+            ledger::tick();
+            p.val().cmp(&q.val())
+        })),
+            FOp::MinBy => ret!(it.min_by(|p, q| {
+            ledger::tick();
+            p.val().cmp(&q.val())
+        })),
             FOp::Reduce => {
                 // keep the larger one, hand the other one to the consumer
                 let r = it.reduce(|p, q| {
@@ -697,7 +753,10 @@ where
                 obs.push(s as i64);
             }
             FOp::Partition => {
-                let (e, o): (Vec<X>, Vec<X>) = it.partition(|x| x.val() % 2 == 0);
+                let (e, o): (Vec<X>, Vec<X>) = it.partition(|x| {
+            ledger::tick();
+            x.val() % 2 == 0
+        });
                 obs.push(e.len() as i64);
                 obs.push(o.len() as i64);
                 for x in e.into_iter().chain(o) {
@@ -705,7 +764,10 @@ where
                 }
             }
             FOp::Unzip => {
-                let (ids, xs): (Vec<u32>, Vec<X>) = it.map(|x| (x.id(), x)).unzip();
+                let (ids, xs): (Vec<u32>, Vec<X>) = it.map(|x| {
+            ledger::tick();
+            (x.id(), x)
+        }).unzip();
                 obs.extend(ids.iter().map(|&i| i as i64));
                 for x in xs {
                     sink(x)
@@ -720,7 +782,10 @@ where
                 }
             }
             FOp::IsSorted => obs.push(it.is_sorted() as i64),
-            FOp::IsSortedBy => obs.push(it.is_sorted_by(|p, q| p.val() <= q.val()) as i64),
+            FOp::IsSortedBy => obs.push(it.is_sorted_by(|p, q| {
+            ledger::tick();
+            p.val() <= q.val()
+        }) as i64),
             FOp::IsSortedByKey => obs.push(it.is_sorted_by_key(|x| {
                 let v = x.val();
                 sink(x);
@@ -755,8 +820,14 @@ where
                 obs.push(i as i64);
                 sink(x)
             }),
-            FOp::MapCount => obs.push(it.map(|x| x).count() as i64),
-            FOp::MapLast => ret!(it.map(|x| x).last()),
+            FOp::MapCount => obs.push(it.map(|x| {
+            ledger::tick();
+            x
+        }).count() as i64),
+            FOp::MapLast => ret!(it.map(|x| {
+            ledger::tick();
+            x
+        }).last()),
             _ => unreachable!(),
         }
     } else {
@@ -1265,7 +1336,7 @@ pub const fn n_states(n: u64) -> u64 {
 }
 
 /// state index -> (start, end); ordered by the number of pulls, then by the number of front pulls
-fn state(n: usize, i: u64) -> (usize, usize) {
+pub(crate) fn state(n: usize, i: u64) -> (usize, usize) {
     let (mut p, mut rest) = (0usize, i as usize);
     while rest > p {
         rest -= p + 1;
